@@ -48,45 +48,40 @@ impl<T: 'static> VerifLocal<T> {
     }
 }
 
-struct Callbacks {
-    switch: Option<fn()>,
-    resume: Option<fn(usize) -> bool>,
+// The two callbacks are resolved at link time (no function pointers: a solver back end has to
+// consider every address-taken function of a compatible signature as the target of an indirect
+// call). A crate that enables `verif-hooks` must define both symbols.
+extern "Rust" {
+    /// Called in place of the coroutine switch at every scheduling point (`thread::switch`) while
+    /// interception is enabled.
+    fn shuttle_verif_on_switch();
+    /// Performs one step of the task with the given id in place of resuming its coroutine; returns
+    /// true if the task finished.
+    fn shuttle_verif_resume(task_id: usize) -> bool;
 }
 
-struct CallbackCell(UnsafeCell<Callbacks>);
+struct Flag(UnsafeCell<bool>);
 // Safety: harnesses are single threaded.
-unsafe impl Sync for CallbackCell {}
+unsafe impl Sync for Flag {}
+static INTERCEPT: Flag = Flag(UnsafeCell::new(false));
 
-static CALLBACKS: CallbackCell = CallbackCell(UnsafeCell::new(Callbacks {
-    switch: None,
-    resume: None,
-}));
-
-/// Register the function to be called in place of the coroutine switch at every scheduling point
-/// (`thread::switch`). While one is registered, `switch()` calls it and returns.
-pub fn set_switch_callback(f: Option<fn()>) {
-    unsafe { (*CALLBACKS.0.get()).switch = f };
-}
-
-/// Register the function that performs one step of the task with the given id in place of
-/// resuming its coroutine. Returns true if the task finished.
-pub fn set_resume_callback(f: Option<fn(usize) -> bool>) {
-    unsafe { (*CALLBACKS.0.get()).resume = f };
+/// Enable or disable the interception of `thread::switch`. While enabled, `switch()` calls
+/// `shuttle_verif_on_switch` and returns instead of consulting the scheduler and suspending.
+pub fn set_switch_interception(on: bool) {
+    unsafe { *INTERCEPT.0.get() = on };
 }
 
 /// Called first thing in `thread::switch`. Returns true if the switch was intercepted.
 pub fn intercept_switch() -> bool {
-    match unsafe { (*CALLBACKS.0.get()).switch } {
-        Some(f) => {
-            f();
-            true
-        }
-        None => false,
+    if unsafe { *INTERCEPT.0.get() } {
+        unsafe { shuttle_verif_on_switch() };
+        true
+    } else {
+        false
     }
 }
 
 /// Called by the execution loop in place of `continuation.resume()`.
 pub fn resume(task_id: usize) -> bool {
-    let f = unsafe { (*CALLBACKS.0.get()).resume }.expect("verif-hooks: no resume callback registered");
-    f(task_id)
+    unsafe { shuttle_verif_resume(task_id) }
 }
